@@ -16,7 +16,7 @@ ID = sys.argv[1]
 TARGET = {'C06': 'fen', 'C07': 'api'}[ID]
 FUZZ = '/verif/harness/fuzz'
 SEED = int(os.environ.get('VERIF_SEED', '0') or 0)
-RUNS = int(os.environ.get('VERIF_FUZZ_RUNS', {'fen': 4_000_000, 'api': 250_000}[TARGET]))
+RUNS = int(os.environ.get('VERIF_FUZZ_RUNS', {'fen': 4_000_000, 'api': 20_000}[TARGET]))
 ENV = dict(os.environ, CARGO_NET_OFFLINE='true')
 EVID = f'/verif/evidence/{ID}.json'
 
@@ -82,7 +82,7 @@ def main():
                         shutil.copy(os.path.join(sdir, f), cdir)
             art = f'{cdir}-artifacts/'
             os.makedirs(art)
-            args = [binp, cdir, f'-runs={RUNS}', f'-seed={SEED * 4 + len(campaigns) + 1}', '-len_control=0', f'-artifact_prefix={art}', '-print_final_stats=1', '-rss_limit_mb=4096', '-timeout=60']
+            args = [binp, cdir, f'-runs={RUNS}', f'-seed={SEED * 4 + len(campaigns) + 1}', '-len_control=0', f'-artifact_prefix={art}', '-print_final_stats=1', '-rss_limit_mb=4096', '-timeout=120', '-max_total_time=' + os.environ.get('VERIF_FUZZ_MAX_S', '420')]
             args += ['-max_len=120', '-dict=/verif/corpus/fen.dict'] if TARGET == 'fen' else ['-max_len=600']
             p = subprocess.run(args, env=ENV, stdout=subprocess.PIPE, stderr=subprocess.STDOUT, text=True)
             out = p.stdout
